@@ -453,6 +453,7 @@ func runDoc(c *core.Case, e *entry, g *gen) {
 	// the two clean encodings back and forth (shorter-then-longer and
 	// longer-then-shorter, present-then-absent children, padded-then-unpadded base64)
 	reuseCheck(c, e, "UnmarshalXML(own encodings)", true, base, base2, base)
+	overwriteLaw(c, e, base, base2)
 }
 
 func offerDoc(c *core.Case, e *entry, doc []byte, muts []string) {
